@@ -87,13 +87,17 @@ def request_messages():
 def response_messages():
     out = []
     for status, reason in ((200, 'OK'), (204, 'No Content'), (304, 'Not Modified'), (404, 'Not Found')):
-        for framing in ('cl', 'chunked', 'close'):
+        for framing in ('cl', 'chunked', 'close', 'cl0'):
             if status in (204, 304) and framing != 'cl':
+                continue
+            if framing == 'cl0' and status != 200:
                 continue
             parts = [('status-line', ('HTTP/1.1 %d %s' % (status, reason)).encode()), ('status-line-CRLF', b'\r\n'),
                      ('header', b'Content-Type: text/plain'), ('header-CRLF', b'\r\n')]
             if status in (204, 304):
                 parts += [('end-of-headers-CRLF', b'\r\n')]
+            elif framing == 'cl0':      # an explicitly empty body
+                parts += [('header', b'Content-Length: 0'), ('header-CRLF', b'\r\n'), ('end-of-headers-CRLF', b'\r\n')]
             elif framing == 'cl':
                 parts += [('header', b'Content-Length: 5'), ('header-CRLF', b'\r\n'), ('end-of-headers-CRLF', b'\r\n'), ('body', b'world')]
             elif framing == 'chunked':
